@@ -240,7 +240,10 @@ def rst_rule(ctx, repo):
     where = 'skoolkit/snactl.py, skoolkit/opcodes.py, skoolkit/rst.py'
     cases = [('RST 8 + argument inside code', 40000, [0x00, 0xCF, 0x07, 0xAF, 0xC9], [0, 1, 3, 4]),
              ('RST 8 at 65534, argument at 65535', 65530, [0x00, 0x00, 0x00, 0xC9, 0xCF, 0x41], [0, 1, 2, 3]),
-             ('RST 8 at 65535 (no room for its argument)', 65532, [0x3E, 0x01, 0x00, 0xCF], [0, 2, 3])]
+             ('RST 8 at 65535 (no room for its argument)', 65532, [0x3E, 0x01, 0x00, 0xCF], [0, 2, 3]),
+             # a trace that ends in the RST (the error handler never returns): the argument is not in the map
+             ('RST 8 last in the trace', 30000, [0xCF, 0x01, 0xC9, 0xC3, 0xC9, 0x01, 0x02, 0x03, 0x04, 0x05], [0]),
+             ('RST 8 last in the trace, after code', 30000, [0x3E, 0x02, 0xCF, 0x21, 0x00, 0xC9, 0x18, 0x00, 0xC9], [0, 2])]
     for name, start, data, executed in cases:
         snap = [0] * 65536
         snap[start:start + len(data)] = data
